@@ -525,4 +525,291 @@ theorem print_parse (e : E) (hw : wf e = true) : parse (print e) = some e := by
   simp only [List.append_nil] at this
   simp [parse, parseFuel, this]
 
+/-! ### the converse: whatever the parser accepts is a well-formed tree whose printed form is the input -/
+
+theorem andThen_some {r : PR} {k : E → List Tok → PR} {x} (h : andThen r k = some x) :
+    ∃ e ts, r = some (e, ts) ∧ k e ts = some x := by
+  cases r with
+  | none => simp [andThen] at h
+  | some v => exact ⟨v.1, v.2, rfl, by simpa [andThen] using h⟩
+
+theorem expect_some {t : Tok} {ts : List Tok} {k : List Tok → PR} {x} (h : expect t ts k = some x) :
+    ∃ r, ts = t :: r ∧ k r = some x := by
+  cases ts with
+  | nil => simp [expect] at h
+  | cons t' r =>
+    simp only [expect] at h
+    split at h
+    · rename_i ht; exact ⟨r, by rw [ht], h⟩
+    · simp at h
+
+def opFree (r : List Tok) : Prop := ∀ o r', r ≠ .op o :: r'
+
+def ent (e : E) (m : Nat) (q : Bool) : Prop := if isOpen e then q = true else m ≤ level e
+
+/-- what can stand after a parsed expression of level ≥ m: an operator only if it is weaker than `m` and the
+    expression does not end in an open binding -/
+def edge (e : E) (m : Nat) (r : List Tok) : Prop := ∀ o r', r = .op o :: r' → o.prec < m ∧ openRight e = false
+
+def pre (lhs : E) (prev m : Nat) (ts : List Tok) : Prop :=
+  wf lhs = true ∧ ∀ o r', ts = .op o :: r' → openRight lhs = false ∧
+    (m ≤ o.prec → ¬ (o.assoc = .non ∧ o.prec = prev) → o.lmin ≤ level lhs)
+
+theorem postfix_inv (e : E) (ts : List Tok) (hw : wf e = true) (hp : isPostfixable e = true) :
+    wf (postfixQ e ts).1 = true ∧ isPostfixable (postfixQ e ts).1 = true ∧
+    print (postfixQ e ts).1 ++ (postfixQ e ts).2 = print e ++ ts := by
+  induction ts generalizing e with
+  | nil => simp [postfixQ, hw, hp]
+  | cons t ts ih =>
+    cases t with
+    | quest =>
+      simp only [postfixQ]
+      have := ih (.opt e) (by simp [wf, hw, hp]) rfl
+      simpa [print] using this
+    | _ => simp [postfixQ, hw, hp]
+
+theorem op_lmin_le_10 (o : Op) : o.lmin ≤ 10 := by cases o <;> decide
+theorem op_rmin_le_10 (o : Op) : o.rmin ≤ 10 := by cases o <;> decide
+theorem op_next (o o2 : Op) (h1 : o2.prec < o.rmin) (h2 : ¬ (o2.assoc = .non ∧ o2.prec = o.prec)) : o2.lmin ≤ o.prec := by
+  cases o <;> cases o2 <;> revert h1 h2 <;> decide
+
+theorem term_level (e : E) (h : isTerm e = true) : level e = 10 ∧ openRight e = false ∧ isOpen e = false := by
+  cases e <;> simp_all [isTerm, isPostfixable, level, openRight, isOpen]
+
+theorem open_level (e : E) (h : isOpen e = true) : openRight e = true := by
+  cases e <;> simp_all [isOpen, openRight]
+
+def InvT (f : Nat) : Prop := ∀ ts e r, parseTerm f ts = some (e, r) → wf e = true ∧ isTerm e = true ∧ print e ++ r = ts
+def InvO (f : Nat) : Prop := ∀ q ts e r, parseOperand f q ts = some (e, r) →
+  wf e = true ∧ print e ++ r = ts ∧ (isTerm e = true ∨ (isOpen e = true ∧ q = true ∧ opFree r))
+def InvX (f : Nat) : Prop := ∀ m q ts e r, m ≤ 10 → 1 ≤ m → parseExpr f m q ts = some (e, r) →
+  wf e = true ∧ print e ++ r = ts ∧ ent e m q ∧ edge e m r
+def InvC (f : Nat) : Prop := ∀ m q lhs prev ts e r, m ≤ 10 → 1 ≤ m → pre lhs prev m ts → ent lhs m q →
+  climb f m lhs prev ts = some (e, r) → wf e = true ∧ print e ++ r = print lhs ++ ts ∧ ent e m q ∧ edge e m r
+
+theorem inv_all : ∀ f, InvT f ∧ InvO f ∧ InvX f ∧ InvC f := by
+  intro f
+  induction f with
+  | zero =>
+    refine ⟨?_, ?_, ?_, ?_⟩
+    · intro ts e r h; simp [parseTerm_zero] at h
+    · intro q ts e r h; simp [parseOperand_zero] at h
+    · intro m q ts e r _ _ h; simp [parseExpr_zero] at h
+    · intro m q lhs prev ts e r _ _ _ _ h; simp [climb_zero] at h
+  | succ f ih =>
+    obtain ⟨ihT, ihO, ihX, ihC⟩ := ih
+    have hT : InvT (f + 1) := by
+      intro ts e r h
+      cases ts with
+      | nil => simp [parseTerm] at h
+      | cons t ts =>
+        cases t with
+        | atom s =>
+          rw [parseTerm_atom] at h
+          have hp := postfix_inv (.atom s) ts rfl rfl
+          have : postfixQ (.atom s) ts = (e, r) := by simpa using h
+          rw [this] at hp
+          exact ⟨hp.1, isTerm_of_postfixable _ hp.2.1, by simpa [print] using hp.2.2⟩
+        | lparen =>
+          rw [parseTerm_lparen] at h
+          obtain ⟨e1, ts1, h1, h2⟩ := andThen_some h
+          obtain ⟨r1, hr1, h3⟩ := expect_some h2
+          obtain ⟨hw1, hp1, _, _⟩ := ihX 1 true ts e1 ts1 (by omega) (by omega) h1
+          have hp := postfix_inv (.paren e1) r1 (by simpa [wf] using hw1) rfl
+          have : postfixQ (.paren e1) r1 = (e, r) := by simpa using h3
+          rw [this] at hp
+          refine ⟨hp.1, isTerm_of_postfixable _ hp.2.1, ?_⟩
+          rw [hp.2.2, ← hp1, hr1]
+          simp [print]
+        | bopen kw =>
+          rw [parseTerm_bopen] at h
+          obtain ⟨a, ts1, h1, h2⟩ := andThen_some h
+          obtain ⟨r1, hr1, h3⟩ := expect_some h2
+          obtain ⟨b, ts2, h4, h5⟩ := andThen_some h3
+          obtain ⟨r2, hr2, h6⟩ := expect_some h5
+          obtain ⟨hwa, hpa, _, _⟩ := ihX 1 true ts a ts1 (by omega) (by omega) h1
+          obtain ⟨hwb, hpb, _, _⟩ := ihX 1 true r1 b ts2 (by omega) (by omega) h4
+          have hp := postfix_inv (.brack kw a b) r2 (by simp [wf, hwa, hwb]) rfl
+          have : postfixQ (.brack kw a b) r2 = (e, r) := by simpa using h6
+          rw [this] at hp
+          refine ⟨hp.1, isTerm_of_postfixable _ hp.2.1, ?_⟩
+          rw [hp.2.2, ← hpa, hr1, ← hpb, hr2]
+          simp [print]
+        | op o =>
+          cases o with
+          | sub =>
+            rw [parseTerm_neg] at h
+            obtain ⟨e1, ts1, h1, h2⟩ := andThen_some h
+            obtain ⟨hw1, ht1, hp1⟩ := ihT ts e1 ts1 h1
+            have : (E.neg e1, ts1) = (e, r) := by simpa using h2
+            obtain ⟨rfl, rfl⟩ := Prod.mk.inj this
+            exact ⟨by simp [wf, hw1, ht1], rfl, by simp [print, hp1]⟩
+          | _ => simp [parseTerm] at h
+        | _ => simp [parseTerm] at h
+    have hO : InvO (f + 1) := by
+      intro q ts e r h
+      rw [parseOperand_succ] at h
+      cases ts with
+      | nil =>
+        simp only [onLabel] at h
+        obtain ⟨t, r0, h1, _⟩ := andThen_some h
+        have := ihT [] t r0 h1
+        have h3 := this.2.2
+        have := print_ne_nil t
+        cases hpt : print t with
+        | nil => exact absurd hpt this
+        | cons a b => rw [hpt] at h3; simp at h3
+      | cons t0 ts0 =>
+        by_cases hl : ∃ n, t0 = .label n
+        · obtain ⟨n, rfl⟩ := hl
+          simp only [onLabel] at h
+          cases q with
+          | false => simp at h
+          | true =>
+            simp only [if_true] at h
+            obtain ⟨b, r1, h1, h2⟩ := andThen_some h
+            obtain ⟨hwb, hpb, _, hedge⟩ := ihX 1 true ts0 b r1 (by omega) (by omega) h1
+            have : (E.label n b, r1) = (e, r) := by simpa using h2
+            obtain ⟨rfl, rfl⟩ := Prod.mk.inj this
+            refine ⟨by simpa [wf] using hwb, by simp [print, hpb], Or.inr ⟨rfl, rfl, ?_⟩⟩
+            intro o r' hr
+            have := (hedge o r' hr).1
+            have := op_prec_pos o
+            omega
+        · have hnl : onLabel (t0 :: ts0)
+              (fun n ts' => if q = true then andThen (parseExpr f 1 true ts') fun b r => some (E.label n b, r) else none)
+              (andThen (parseTerm f (t0 :: ts0)) fun t r =>
+                onAs r (fun p r' => if q = true then andThen (parseExpr f 1 true r') fun b r'' => some (E.bind t p b, r'') else some (t, r))
+                  (some (t, r))) =
+              (andThen (parseTerm f (t0 :: ts0)) fun t r =>
+                onAs r (fun p r' => if q = true then andThen (parseExpr f 1 true r') fun b r'' => some (E.bind t p b, r'') else some (t, r))
+                  (some (t, r))) := by
+            cases t0 <;> first | (exfalso; exact hl ⟨_, rfl⟩) | rfl
+          rw [hnl] at h
+          obtain ⟨t, r0, h1, h2⟩ := andThen_some h
+          obtain ⟨hwt, htt, hpt⟩ := ihT _ t r0 h1
+          by_cases has : ∃ p r', r0 = .as_ p :: r'
+          · obtain ⟨p, r', rfl⟩ := has
+            simp only [onAs] at h2
+            cases q with
+            | false =>
+              have : (t, Tok.as_ p :: r') = (e, r) := by simpa using h2
+              obtain ⟨rfl, rfl⟩ := Prod.mk.inj this
+              exact ⟨hwt, hpt, Or.inl htt⟩
+            | true =>
+              simp only [if_true] at h2
+              obtain ⟨b, r1, h3, h4⟩ := andThen_some h2
+              obtain ⟨hwb, hpb, _, hedge⟩ := ihX 1 true r' b r1 (by omega) (by omega) h3
+              have : (E.bind t p b, r1) = (e, r) := by simpa using h4
+              obtain ⟨rfl, rfl⟩ := Prod.mk.inj this
+              refine ⟨by simp [wf, hwt, htt, hwb], ?_, Or.inr ⟨rfl, rfl, ?_⟩⟩
+              · rw [← hpt, ← hpb]; simp [print]
+              · intro o r'' hr
+                have := (hedge o r'' hr).1
+                have := op_prec_pos o
+                omega
+          · have : onAs r0 (fun p r' => if q = true then andThen (parseExpr f 1 true r') fun b r'' => some (E.bind t p b, r'') else some (t, r0))
+                (some (t, r0)) = some (t, r0) := by
+              cases r0 with
+              | nil => rfl
+              | cons a b => cases a <;> first | (exfalso; exact has ⟨_, _, rfl⟩) | rfl
+            rw [this] at h2
+            have : (t, r0) = (e, r) := by simpa using h2
+            obtain ⟨rfl, rfl⟩ := Prod.mk.inj this
+            exact ⟨hwt, hpt, Or.inl htt⟩
+    have hX : InvX (f + 1) := by
+      intro m q ts e r hm10 hm1 h
+      rw [parseExpr_succ] at h
+      obtain ⟨lhs, r0, h1, h2⟩ := andThen_some h
+      obtain ⟨hwl, hpl, hkind⟩ := ihO q ts lhs r0 h1
+      have hpre : pre lhs 0 m r0 := by
+        refine ⟨hwl, ?_⟩
+        intro o r' hr
+        rcases hkind with ht | ⟨_, _, hfree⟩
+        · obtain ⟨hlev, hor, _⟩ := term_level lhs ht
+          refine ⟨hor, fun _ _ => ?_⟩
+          rw [hlev]; exact op_lmin_le_10 o
+        · exact absurd hr (hfree o r')
+      have hent : ent lhs m q := by
+        unfold ent
+        rcases hkind with ht | ⟨ho, hq, _⟩
+        · obtain ⟨hlev, _, hno⟩ := term_level lhs ht
+          simp [hno, hlev, hm10]
+        · simp [ho, hq]
+      obtain ⟨hw, hp, he, hed⟩ := ihC m q lhs 0 r0 e r hm10 hm1 hpre hent h2
+      exact ⟨hw, by rw [hp, hpl], he, hed⟩
+    have hC : InvC (f + 1) := by
+      intro m q lhs prev ts e r hm10 hm1 hpre hent h
+      rw [climb_succ] at h
+      by_cases hop : ∃ o r', ts = .op o :: r'
+      · obtain ⟨o, r', rfl⟩ := hop
+        simp only [onOp] at h
+        obtain ⟨hwl, hpre2⟩ := hpre
+        obtain ⟨horl, hlmin⟩ := hpre2 o r' rfl
+        by_cases hmo : m ≤ o.prec
+        · simp only [hmo, if_true] at h
+          by_cases hnon : o.assoc = .non ∧ o.prec = prev
+          · simp [hnon] at h
+          · rw [if_neg hnon] at h
+            obtain ⟨rhs, r1, h1, h2⟩ := andThen_some h
+            have hr10 := op_rmin_le_10 o
+            have hr1 : 1 ≤ o.rmin := by have := op_prec_pos o; have := op_prec_le_rmin o; omega
+            obtain ⟨hwr, hpr, hentr, hedger⟩ := ihX o.rmin o.queryLevel r' rhs r1 hr10 hr1 h1
+            have hwbin : wf (.bin o lhs rhs) = true := by
+              simp only [wf, Bool.and_eq_true, Nat.ble_eq, Bool.not_eq_true']
+              refine ⟨⟨⟨⟨hwl, hwr⟩, horl⟩, hlmin hmo hnon⟩, ?_⟩
+              unfold ent at hentr
+              split
+              · rename_i ho; simpa [ho] using hentr
+              · rename_i ho; simpa [ho] using hentr
+            have hpre' : pre (.bin o lhs rhs) o.prec m r1 := by
+              refine ⟨hwbin, ?_⟩
+              intro o2 r2 hr2
+              obtain ⟨hlt, hor⟩ := hedger o2 r2 hr2
+              refine ⟨by simpa [openRight] using hor, fun _ hn2 => ?_⟩
+              simp only [level]
+              exact op_next o o2 hlt hn2
+            have hent' : ent (.bin o lhs rhs) m q := by simp [ent, isOpen, level, hmo]
+            obtain ⟨hw, hp, he, hed⟩ := ihC m q (.bin o lhs rhs) o.prec r1 e r hm10 hm1 hpre' hent' h2
+            refine ⟨hw, ?_, he, hed⟩
+            rw [hp, ← hpr]; simp [print]
+        · simp only [hmo, if_false] at h
+          have : (lhs, Tok.op o :: r') = (e, r) := by simpa using h
+          obtain ⟨rfl, rfl⟩ := Prod.mk.inj this
+          refine ⟨hwl, rfl, hent, ?_⟩
+          intro o2 r2 hr2
+          have : o2 = o := by cases hr2; rfl
+          subst this
+          exact ⟨by omega, horl⟩
+      · have : onOp ts (fun o r =>
+            if m ≤ o.prec then
+              if o.assoc = .non ∧ o.prec = prev then none
+              else andThen (parseExpr f o.rmin o.queryLevel r) fun rhs r' => climb f m (.bin o lhs rhs) o.prec r'
+            else some (lhs, ts)) (some (lhs, ts)) = some (lhs, ts) := by
+          cases ts with
+          | nil => rfl
+          | cons a b => cases a <;> first | (exfalso; exact hop ⟨_, _, rfl⟩) | rfl
+        rw [this] at h
+        have : (lhs, ts) = (e, r) := by simpa using h
+        obtain ⟨rfl, rfl⟩ := Prod.mk.inj this
+        refine ⟨hpre.1, rfl, hent, ?_⟩
+        intro o2 r2 hr2
+        exact absurd ⟨o2, r2, hr2⟩ hop
+    exact ⟨hT, hO, hX, hC⟩
+
+/-- everything the parser accepts is well formed, and printing it gives the input back -/
+theorem parse_sound (ts : List Tok) (e : E) (h : parse ts = some e) : wf e = true ∧ print e = ts := by
+  unfold parse parseFuel at h
+  split at h
+  · rename_i e' heq
+    have : e' = e := by simpa using h
+    subst this
+    obtain ⟨hw, hp, _, _⟩ := (inv_all _).2.2.1 1 true ts e' [] (by omega) (by omega) heq
+    exact ⟨hw, by simpa using hp⟩
+  · simp at h
+
+/-- ⇒ for every token sequence the parser accepts, printing the tree and parsing again yields the same tree -/
+theorem parse_print_parse (ts : List Tok) (e : E) (h : parse ts = some e) : parse (print e) = some e :=
+  print_parse e (parse_sound ts e h).1
+
 end Proofs.C11.Print
